@@ -27,13 +27,25 @@ func runConnectRefused(c ConnectCase) kit.Verdict {
 	wait := 3 * kit.T()
 	incomplete := func(what string) kit.Verdict {
 		atomic.AddInt64(&wireIncomplete, 1)
-		kit.Inconclusive("connect-refused")
-		kit.Note("connect-refused", "a case could not be judged ("+what+"); counted inconclusive")
+		kit.Inconclusive("connect-downstream")
+		kit.Note("connect-downstream", "a case could not be judged ("+what+"); counted inconclusive")
 		return nil
 	}
 	id := func(s string) string { return s }
 	wc := Case{Status: c.Status, Res: c.Res, Body: c.Body}
-	down, err := newOrigin(wait, wireResponse(wc, id)) // plays the downstream proxy
+	answer := wireResponse(wc, id)
+	if c.Status/100 == 2 {
+		// an accepted CONNECT has no body and announces no framing: what follows
+		// the header block is tunnel data
+		var sb strings.Builder
+		fmt.Fprintf(&sb, "HTTP/1.1 %d %s\r\n", c.Status, http.StatusText(c.Status))
+		for _, l := range c.Res {
+			fmt.Fprintf(&sb, "%s:%s%s\r\n", l.N, l.P, l.V)
+		}
+		sb.WriteString("\r\n")
+		answer = []byte(sb.String())
+	}
+	down, err := newOrigin(wait, answer) // plays the downstream proxy
 	if err != nil {
 		return incomplete("no port")
 	}
@@ -58,21 +70,31 @@ func runConnectRefused(c ConnectCase) kit.Verdict {
 		return v
 	}
 	if statusOf(start) != c.Status {
-		v.Addf("C14/stack/clean-response/unexpected-error", "downstream proxy refused CONNECT with %d, client got %q (Warning %q)", c.Status, start, rh["Warning"])
+		v.Addf("C14/stack/clean-response/unexpected-error", "downstream proxy answered CONNECT with %d, client got %q (Warning %q)", c.Status, start, rh["Warning"])
 	}
 	rin := collect(c.Res, id)
-	checkHeaders("connect-refusal", rin, rh, hopSet(rin), nil, mergeSets(notAssertedOnWire, map[string]bool{"Content-Length": true, "Warning": true}), &v)
+	checkHeaders("connect-answer", rin, rh, hopSet(rin), nil, mergeSets(notAssertedOnWire, map[string]bool{"Content-Length": true, "Warning": true}), &v)
 	return v
 }
 
 var propConnectRefused = &kit.Prop[ConnectCase]{
-	ID: "C14", Name: "connect-refused",
-	Rule: "raw client CONNECT -> martian.Proxy (stack, SetDownstreamProxy, no MITM) -> raw downstream proxy answering 403/407/500/502 with generated hop-by-hop headers (fixed names, Connection-nominated extension names in drawn case and spacing; a 407 always carries Proxy-Authenticate) and end-to-end headers: the client must see the status, every end-to-end header and no hop-by-hop header; non-trivial = all",
+	ID: "C14", Name: "connect-downstream",
+	Rule: "raw client CONNECT -> martian.Proxy (stack, SetDownstreamProxy, no MITM) -> raw downstream proxy accepting (200/201/204, no body, tunnel follows) or refusing (403/407/500/502) with generated hop-by-hop headers (fixed names, Connection-nominated extension names in drawn case and spacing; a 407 always carries Proxy-Authenticate) and end-to-end headers: the client must see the status, every end-to-end header and no hop-by-hop header; non-trivial = all",
 	Gen: func(t *rapid.T) ConnectCase {
 		c := ConnectCase{
-			Status: rapid.SampledFrom([]int{407, 407, 403, 502, 500}).Draw(t, "status"),
+			Status: rapid.SampledFrom([]int{200, 200, 200, 201, 204, 407, 407, 403, 502, 500}).Draw(t, "status"),
 			Body:   rapid.IntRange(0, 100).Draw(t, "body"),
 			Res:    genHeaders(t, genOpts{wire: true}),
+		}
+		// what a proxy's answer typically carries besides: its own Via chain
+		// (several lines, comments), an agent and an id header
+		for _, x := range []HL{{N: "Via", P: " ", V: "1.1 downstream-a"}, {N: "via", V: "1.0 cache-b (x, y)"}, {N: "Proxy-Agent", P: " ", V: "down/1.0"}, {N: "X-Request-Id", P: "\t", V: "r-17"}, {N: "x-request-id", P: " ", V: "r-18"}} {
+			if rapid.Bool().Draw(t, "proxy_header") {
+				c.Res = append(c.Res, x)
+			}
+		}
+		if !valid(Case{Res: c.Res}) {
+			t.Fatalf("generator produced a case outside the domain")
 		}
 		if c.Status == 407 && len(collect(c.Res, func(s string) string { return s })["Proxy-Authenticate"]) == 0 {
 			c.Res = append(c.Res, HL{N: "Proxy-Authenticate", P: " ", V: "Basic realm=\"downstream\""})
@@ -82,6 +104,11 @@ var propConnectRefused = &kit.Prop[ConnectCase]{
 	Run: runConnectRefused, NonTrivial: func(ConnectCase) bool { return true },
 	Classes: func(c ConnectCase) []string {
 		cl := []string{fmt.Sprintf("status-%d", c.Status)}
+		if c.Status/100 == 2 {
+			cl = append(cl, "accepted")
+		} else {
+			cl = append(cl, "refused")
+		}
 		h := collect(c.Res, func(s string) string { return s })
 		for _, n := range fixedHop[1:] {
 			if len(h[n]) > 0 {
@@ -94,12 +121,12 @@ var propConnectRefused = &kit.Prop[ConnectCase]{
 		}
 		return cl
 	},
-	Gates:   map[string]float64{"fixed-hop-header-present": 0.5},
+	Gates:   map[string]float64{"fixed-hop-header-present": 0.5, "accepted": 0.3, "refused": 0.3},
 	Journal: true,
 }
 
 func TestConnectRefused(t *testing.T) {
-	n := kit.N(24, 60)
+	n := kit.N(60, 100)
 	before := atomic.LoadInt64(&wireIncomplete)
 	propConnectRefused.Check(t, n)
 	if inc := atomic.LoadInt64(&wireIncomplete) - before; inc*10 > int64(n) {
